@@ -108,3 +108,7 @@ Theorem C05_product_kernel_is_todays_source : forall (R : Type) (O : ops R) sfun
   gen_codegen_product O sfun filt kout x y = codegen_product O sfun filt kout x y.
 Proof. exact @br_codegen_product. Qed.
 Print Assumptions C05_product_kernel_is_todays_source.
+
+(* ---- source pins: the functions whose hand-written model carries the theorems above are still, textually (after
+   ast normalisation), the functions the model was validated against; an edit breaks Bridge/Pins_C05.v ---- *)
+From KV Require Bridge.Pins_C05.
